@@ -48,6 +48,27 @@ func unmap(a netip.Addr) netip.Addr { return a.Unmap() }
 // RefMatch decides, from the property text, whether pkt (as returned to the endpoint) answers one
 // of probes (the probes whose WriteTo had been called when the packet was returned).
 func RefMatch(fs *FlowSpec, probes []*sim.ProbeRec, pkt []byte) Match {
+	m := refMatch(fs, probes, pkt)
+	if m.Kind == NoMatch || len(pkt) < 8 || pkt[0]>>4 != 4 {
+		return m
+	}
+	// IPv4 fragments: a non-first fragment carries no transport header at all; a first fragment
+	// (MF set) is not a form any device produces for these replies
+	fo := uint16(pkt[6])<<8 | uint16(pkt[7])
+	if fo&0x1fff != 0 {
+		return Match{}
+	}
+	if fo&0x2000 != 0 && (m.Kind == Genuine || m.Kind == PlainAck) {
+		if m.Kind == PlainAck {
+			m.Kind = PlainAckMaybe
+		} else {
+			m.Kind = DontCare
+		}
+	}
+	return m
+}
+
+func refMatch(fs *FlowSpec, probes []*sim.ProbeRec, pkt []byte) Match {
 	var good []*sim.ProbeRec
 	for _, p := range probes {
 		if p.IP != nil && p.L4 != nil {
